@@ -23,6 +23,13 @@ RULES = {
     "l1ib": ("(('prim', 'l'), ('prim', 1), ('prim', 'b'))", "V('greater_than', t1)", [("t1", "int")]),
     "l0f": ("(('prim', 'l'), ('prim', 0.0))", "V('truthy')", []),
     "l0i": ("(('prim', 'l'), ('prim', 0))", "V('equal_to', e1)", [("e1", "int")]),
+    # look-alike parts: a str part that renders like an int / None key of the document ('1' vs 1): one path is
+    # absent, its look-alike exists
+    "k1s": ("(('prim', '1'),)", "V('falsy')", []),
+    "k1i": ("(('prim', 1),)", "V('greater_than', t1)", [("t1", "int")]),
+    "ls1": ("(('prim', 'l'), ('prim', '1'))", "V('falsy')", []),
+    # fails at sibling keys of mixed types (str, int, None) at once
+    "M_list": ("(('map', NULL),)", "V('is_instance', list)", []),
 }
 
 
@@ -93,6 +100,7 @@ QUICK = [
     ["ab_gt", "M_dict", "lL_eq"], ["root_keys", "aci", "ab_str"], ["lL_eq", "ab_gt", "zz"], ["X_len", "root_keys"],
     ["acL_gt", "ab_str", "L_x"], ["M_truthy", "X_len"], ["M_dict", "ab_gt", "zz"], ["zz", "L_x"], ["aci", "acL_gt"],
     ["l1f", "l1i"], ["l1f", "l1ib", "zz"], ["l0f", "l0i", "l1i"],
+    ["k1s", "k1i"], ["k1s", "zz", "k1i"], ["ls1", "l1i", "l1ib"], ["M_list"], ["M_list", "k1i"],
 ]
 
 
